@@ -431,6 +431,25 @@ def run(tier, seed, replay):
         vlib.tlc_expect_ok(res, "MCCursor")
         ck.add_tlc(res)
         inputs = build_inputs(tier, seed)
+        # every expression tree of spec/WxmlExpr.tla, its tokens separated by seeded white space, line breaks and
+        # comments (with multi-byte characters): the layout between any two tokens must not move a recorded location
+        import c03
+        eres = vlib.tlc("MCWxmlExpr", workers=6, timeout=900, sample=(5, seed) if tier == "quick" else None)
+        vlib.tlc_expect_ok(eres, "MCWxmlExpr")
+        ck.add_tlc(eres)
+        rnd2 = vlib.rng(seed, "c16-expr")
+        seps = [" ", "  ", "\n", "\t", " /* c */ ", "/**/", "\n/*é😀*/\n  ", " /* a */ /* b */"]
+        for c in eres.cases:
+            toks = c["toks"]
+            if any('"' in t for t in toks):
+                continue
+            out = []
+            for i, t in enumerate(toks):
+                if i:
+                    plain = toks[i - 1][-1] in "*/"      # (WXML does not lex a comment right after `*` or `/`)
+                    out.append(rnd2.choice(seps[:4] if plain else seps) if rnd2.random() < 0.6 else " ")
+                out.append(t)
+            inputs.append('<v a="{{ %s }}">{{ m }}</v>' % "".join(out))
     cases = [{"id": i, "files": [["p/a", s]], "want": ["trace", "ast", "str"]} for i, s in enumerate(inputs)]
     results = vlib.run_vh("tmpl", cases)
     items = []
